@@ -178,16 +178,12 @@ def classify(case: dict, res: dict) -> list[tuple[str | None, str, dict]]:
         probs.append(("foreign", f, "imports a module outside stdlib/httpx/cattrs/the package"))
     for kind, where, msg in probs:
         fid = None
-        if kind in ("import", "syntax") and feats["enum_default_unsafe"] and ("has no attribute" in msg or "invalid" in msg.lower() or "SyntaxError" in msg or "NameError" in msg):
-            fid = "F53"
-        elif "'return' with value in async generator" in msg and feats["stream_with_other_2xx"]:
+        # (F53 enum defaults, F31 zero operations, F3 non-error statuses are repaired: no attribution - a branch for a repaired finding
+        #  would only shadow the attribution of a listed one, as F53's did for F35 in a thorough run)
+        if "'return' with value in async generator" in msg and feats["stream_with_other_2xx"]:
             fid = "F35"
         elif "duplicate argument" in msg and "mock_client" in where + msg and feats["tag_spelling_variants"]:
             fid = "F23"
-        elif kind in ("syntax", "import") and "mock_client" in where + msg and feats["zero_operations"]:
-            fid = "F31"
-        elif kind == "import" and re.search(r"cannot import name 'Error\d+'", msg) and feats["non_error_non_2xx_status"]:
-            fid = "F3"
         elif kind == "import" and feats["mutual_refs"] and ("partially initialized module" in msg or "circular import" in msg
                                                                or "No module named" in msg or "cannot import name" in msg):
             fid = "F2"
